@@ -72,6 +72,7 @@ type Scheduler struct {
 	opensBy    map[string][]string // task -> paths opened
 	burstTask  string
 	victim     string
+	getsBy     map[string]int // run|path -> number of pooled-file Gets so far
 }
 
 func newScheduler(spec *SchedSpec) *Scheduler {
@@ -118,6 +119,20 @@ func (s *Scheduler) Yield(point, logID, detail string) {
 	if t.window || (s.window && logID == "") || (s.spec.NoPoolYield && point == "pool.get") {
 		s.mu.Unlock()
 		return
+	}
+	if point == "pool.get" {
+		// a run parks at its first Gets of a path (who loads the file first, who finds it cached); a run that asks for the
+		// same file again and again (the texture table on every day of a moving groundwater table: thousands of Gets)
+		// parks at every 64th repeat on average, so that large batches stay inside the decision budget
+		if s.getsBy == nil {
+			s.getsBy = map[string]int{}
+		}
+		k := id + "|" + detail
+		s.getsBy[k]++
+		if s.getsBy[k] > 3 && s.recRng.F() >= 1.0/64 {
+			s.mu.Unlock()
+			return
+		}
 	}
 	t.point, t.detail, t.parked = point, detail, true
 	s.mu.Unlock()
